@@ -55,8 +55,6 @@ func dijkstraFrom(u, t graph.Node, g traverse.Graph) Shortest {
 			if h.Node(u.ID()) == nil {
 				return Shortest{from: u}
 			}
-		} else if g.From(u.ID()) == graph.Empty {
-			return Shortest{from: u}
 		}
 		path = newShortestFrom(u, []graph.Node{u})
 	}
@@ -131,9 +129,6 @@ func DijkstraAllFrom(u graph.Node, g traverse.Graph) ShortestAlts {
 		}
 		path = newShortestAltsFrom(u, graph.NodesOf(h.Nodes()))
 	} else {
-		if g.From(u.ID()) == graph.Empty {
-			return ShortestAlts{from: u}
-		}
 		path = newShortestAltsFrom(u, []graph.Node{u})
 	}
 
